@@ -32,14 +32,14 @@ func (l *SkipListIndexLoader) Load(indexPath string, _ *proto.MetaData) (_ Sorte
 		return nil, fmt.Errorf("error while creating index reader of sstable in '%s': %w", indexPath, err)
 	}
 
+	defer func() {
+		err = errors.Join(err, reader.Close())
+	}()
+
 	err = reader.Open()
 	if err != nil {
 		return nil, fmt.Errorf("error while opening index reader of sstable in '%s': %w", indexPath, err)
 	}
-
-	defer func() {
-		err = errors.Join(err, reader.Close())
-	}()
 
 	indexMap := skiplist.NewSkipListMap[[]byte, IndexVal](l.KeyComparator)
 	record := &proto.IndexEntry{}
